@@ -8,6 +8,8 @@ package ctxiso
 
 import (
 	"bytes"
+	"compress/gzip"
+	"compress/zlib"
 	"encoding/json"
 	"fmt"
 	"net"
@@ -1423,6 +1425,55 @@ func runIsolation(e *ev.Env) {
 			pm = "OPTIONS"
 		}
 		ic.Probe = probeSpec{Route: -1, Class: ckNone, ViaEH: true, Variant: "eh-samepath", Raw: mk(pm, "PRB")}
+		judgeIso(e, c, ic)
+	})
+	// directed family: content-encoded bodies over one keep-alive connection whose ENCODED forms
+	// have the same length (fasthttp keeps the body buffer of a connection: same address, same
+	// length), with different content
+	e.Cases("bodymemo", e.N(300, 8000), func(c *ev.Case) {
+		r := c.R
+		ic := isoCase{Cfg: isoCfg{Custom: r.Chance(1, 3), PassLocals: r.Bool(), Immutable: r.Chance(1, 3)}}
+		ic.Cfg.widen(r)
+		coding := gen.Pick(r, []string{"gzip", "deflate"})
+		enc := func(plain []byte) []byte {
+			var zb bytes.Buffer
+			if coding == "gzip" {
+				zw := gzip.NewWriter(&zb)
+				_, _ = zw.Write(plain)
+				_ = zw.Close()
+			} else {
+				zw := zlib.NewWriter(&zb)
+				_, _ = zw.Write(plain)
+				_ = zw.Close()
+			}
+			return zb.Bytes()
+		}
+		nameLen, pinLen := r.Range(4, 12), r.Range(4, 10)
+		doc := func(tag string) []byte {
+			return []byte(`{"name":"` + tag + r.StringFrom(gen.Lower, nameLen) + `","tag":"` + r.StringFrom(gen.Digits, pinLen) + `","n":` + strconv.Itoa(r.Range(10, 99)) + `,"l":["` + r.StringFrom(gen.Lower, 3) + `"]}`)
+		}
+		probeBody := enc(doc("PRB"))
+		mk := func(target string, body []byte) []byte {
+			q := &reqSpec{Method: "POST", Target: target, CType: "application/json", Body: body, Hdr: [][2]string{{"Content-Encoding", coding}}}
+			return q.raw()
+		}
+		found := 0
+		want := r.Range(1, 2)
+		for tries := 0; tries < 400 && found < want; tries++ {
+			b := enc(doc("h" + strconv.Itoa(found) + "x"))
+			if len(b) != len(probeBody) || bytes.Equal(b, probeBody) {
+				continue
+			}
+			found++
+			target := gen.Pick(r, []string{"/payload/h" + strconv.Itoa(found), "/payload/h" + strconv.Itoa(found), "/bind?a=1"})
+			ic.History = append(ic.History, wreq{Kind: "encoded-body-" + coding, Raw: mk(target, b), Cookie: ckNone})
+		}
+		if found == 0 {
+			e.Stat("equal_length_not_found", 1)
+			return
+		}
+		e.Stat("equal_length_found", 1)
+		ic.Probe = probeSpec{Route: 4, Class: ckNone, Variant: "encoded-body", Raw: mk("/probeplain", probeBody)}
 		judgeIso(e, c, ic)
 	})
 	if e.Only == "" {
